@@ -12,7 +12,7 @@
 (*     cells     per fragment, per clock domain in the order in which the domains were first driven         *)
 (* Every loop of the construction is a *group* of work items.  A group that iterates an ORDERED collection   *)
 (* (list, insertion-ordered dict) is consumed head first.  A group that iterates a SET is consumed in any    *)
-(* order: action Pick chooses any remaining element (this is what PYTHONHASHSEED does to a set of strings).  *)
+(* order: action PickFromSet chooses any remaining element (what PYTHONHASHSEED does to a set of strings).  *)
 (*                                                                                                          *)
 (* Invariant OutputIndependentOfPickOrder: the finished output equals the canonical output (every group      *)
 (* consumed head first, set groups being listed in sorted order) whatever TLC picked.                        *)
@@ -21,14 +21,17 @@
 (* create the missing domains.  With SortedDomains = FALSE this group is a set and TLC finds the counter-    *)
 (* example as soon as a design has >= 2 missing domains (the port list differs); with SortedDomains = TRUE   *)
 (* (iteration over sorted(...)) the invariant holds for the whole family.  The other loops iterate ordered   *)
-(* collections in the code; the constant AsSet turns any of them into a set *hypothetically* so that TLC     *)
-(* tells which design feature would expose such a regression:                                                *)
+(* collections in the code; the constant AsSet turns any of them into a set *hypothetically* (explored with   *)
+(* at most PickBudget out-of-order picks, see below) so that TLC tells which design feature would expose     *)
+(* such a regression:                                                                                        *)
 (*     "used_signals"   -> any fragment with >= 2 named signals (order of wires); name clashes additionally   *)
 (*                         change WHICH signal gets the "$n" suffix (invariant NamesIndependentOfPickOrder)   *)
 (*     "subfragments"   -> >= 2 submodules: cell order, and with anonymous submodules the names U$n           *)
 (*     "stmt_domains"   -> a fragment driving >= 2 domains: cell order                                       *)
-(* The harness (harness/props/c09.py) aims its design catalogue at exactly these features and replays the     *)
-(* model's own design family on the real Fragment.prepare().                                                  *)
+(* The harness (harness/props/c09.py) aims its design catalogue at exactly these features and rebuilds the    *)
+(* model's own design family (32 designs, hierarchy depth 1) on the real Fragment.prepare(): created domains, *)
+(* port list, wire names per fragment and submodule names are compared with Out (a coverage figure: this      *)
+(* model is implementation-structured; the verdicts of C09 come from Repro / ReproTrace).                     *)
 EXTENDS Naturals, Sequences, FiniteSets, TLC
 
 CONSTANTS SortedDomains,     \* TRUE: missing domains are created in sorted order (the repaired code)
